@@ -511,6 +511,21 @@ func optsGen(g *G, tier string) []M {
 		if isWriter {
 			kind, dfl = "writer", writerDefaults
 		}
+		if g.Chance(0.15) {
+			// directed: one format-option value, kept by the caller, is the first option of several
+			// constructor calls; later calls add options of their own and instances are reconfigured
+			kk := 3.0
+			if !isWriter {
+				kk = 2.0
+			}
+			common := M{"t": "setKey", "k": kk, "key": optKeys[0], "val": g.Pick([]string{"v1", "v2"}), "sh": true}
+			own := func() M { return M{"t": "setKey", "k": kk, "key": optKeys[1], "val": g.Pick([]string{"v2", "v3"})} }
+			steps = []any{M{"s": "new", "settings": []any{common}}, M{"s": "new", "settings": []any{common, own()}}}
+			if g.Chance(0.5) {
+				steps = append(steps, M{"s": "mutate", "i": 1.0, "k": kk, "key": optKeys[0], "val": "m1"})
+			}
+			steps = append(steps, M{"s": "new", "settings": []any{common}}, M{"s": "new", "settings": []any{own(), common}})
+		}
 		ops = append(ops, M{"op": "optsHist", "kind": kind, "defaults": dfl, "steps": steps})
 	}
 	return ops
